@@ -349,7 +349,8 @@ def deadline(seconds=20):
     import signal
     import threading
 
-    if threading.current_thread() is not threading.main_thread() or _DEADLINE[0]:
+    if (threading.current_thread() is not threading.main_thread() or _DEADLINE[0]
+            or signal.getsignal(signal.SIGALRM) is None):  # (a non-Python handler, e.g. libFuzzer's, owns the alarm)
         yield
         return
 
